@@ -5,7 +5,7 @@
    and timers. *)
 From Coq Require Import NArith ZArith List Bool.
 From Cloak Require Import Model.Reorder Model.Mux Proofs.MuxBase Proofs.MuxSafety Proofs.MuxView
-  Proofs.MuxEffect Proofs.MuxPay Proofs.MuxData.
+  Proofs.MuxEffect Proofs.MuxPay Proofs.MuxData Proofs.MuxCalm Proofs.MuxCount Proofs.MuxUp.
 Import ListNotations.
 Local Open Scope N_scope.
 
@@ -32,10 +32,33 @@ Theorem C01_data_invariant :
 Proof. exact reach_PD. Qed.
 Print Assumptions C01_data_invariant.
 
+(* "While every underlying connection stays healthy and neither side closes it, a session with open
+   streams keeps working": over k >= 1 connections, in multiplexed mode, after ANY sequence of opens,
+   writes, reads, accepts, stream closes, frame deliveries (any cross-connection order, any
+   connection picks) and inactivity-timer ticks taken while both sides have an open stream,
+   neither session is closed, neither switchboard is broken, and no connection is closed or failed. *)
+Theorem C01_session_with_open_streams_stays_up :
+  forall k unit toA toB ls,
+  (1 <= k)%nat -> 1 <= unit ->
+  fresh_opens (init k false unit toA toB) ls -> busy_run k (init k false unit toA toB) ls ->
+  all_up (reach k false unit toA toB ls).
+Proof. exact session_with_open_streams_stays_up. Qed.
+Print Assumptions C01_session_with_open_streams_stays_up.
+
+(* ... and on such a session every Write on a stream that is open at the writer is accepted whole *)
+Theorem C01_write_accepted_whole :
+  forall k unit toA toB ls y outs x sid data ch st y' evs,
+  (1 <= k)%nat -> 1 <= unit -> calm_run k ls -> run (init k false unit toA toB) ls = (y, outs) ->
+  valid_picks k ch -> lookup sid (se_objs (sess y x)) = Some st -> st_closed st = false ->
+  step y (LWrite x sid data) ch = (y', evs) ->
+  exists e0 e1, evs = e0 ++ ERet R_OK (N.of_nat (List.length data)) [] :: e1.
+Proof. exact healthy_write_accepted. Qed.
+Print Assumptions C01_write_accepted_whole.
+
 (* Full statement of the completeness half (everything written is read once every frame has been
-   delivered, on traces without close / fault / timer) and of "a healthy session stays up":
-   not yet a theorem of this development; decided on every run by the lock-step correspondence
-   and the oracle (tools/props/c01.py), and by the schedule-point replay of the add-vs-send window. *)
+   delivered, on traces without close / fault / timer): not yet a theorem of this development;
+   decided on every run by the lock-step correspondence and the oracle (tools/props/c01.py), and by
+   the schedule-point replay of the add-vs-send window. *)
 Definition C01_complete_full : Prop :=
   forall k sp u ta tb s sid ls,
   fresh_run (init k sp u ta tb) ls ->
